@@ -137,7 +137,7 @@ class Solver:
     def prove(self, assumptions, goal):
         """-> ('unsat'|'sat'|'unknown', model, smt2 text producer)"""
         r, m, s = self.check_sat(list(assumptions) + [z3.Not(goal)])
-        return {z3.unsat: "unsat", z3.sat: "sat", z3.unknown: "unknown"}[r], m, s
+        return ("unsat" if r == z3.unsat else "sat" if r == z3.sat else "unknown"), m, s
 
 
 def subterms(exprs):
